@@ -678,31 +678,78 @@ var regular []regularSite
 var shaped []regularSite
 
 func bodyShape(rs *ast.RangeStmt) string {
-	if len(rs.Body.List) != 1 {
+	bound := map[string]bool{}
+	if id, ok := rs.Key.(*ast.Ident); ok {
+		bound[id.Name] = true
+	}
+	if id, ok := rs.Value.(*ast.Ident); ok {
+		bound[id.Name] = true
+	}
+	return stmtsShape(rs, rs.Body.List, bound)
+}
+
+// shape of a statement list that must consist of exactly one statement; an
+// "if" without initialiser is looked through (both branches must agree)
+func stmtsShape(rs *ast.RangeStmt, list []ast.Stmt, bound map[string]bool) string {
+	if len(list) != 1 {
 		return ""
 	}
-	as, ok := rs.Body.List[0].(*ast.AssignStmt)
-	if !ok || len(as.Lhs) != 1 || len(as.Rhs) != 1 {
+	switch st := list[0].(type) {
+	case *ast.IfStmt:
+		if st.Init != nil {
+			return ""
+		}
+		sh := stmtsShape(rs, st.Body.List, bound)
+		if st.Else == nil {
+			return sh
+		}
+		if eb, ok := st.Else.(*ast.BlockStmt); ok && sh != "" && stmtsShape(rs, eb.List, bound) == sh {
+			return sh
+		}
 		return ""
-	}
-	if as.Tok == token.OR_ASSIGN {
-		return "flag-or"
-	}
-	ix, ok := as.Lhs[0].(*ast.IndexExpr)
-	if !ok || as.Tok != token.ASSIGN {
-		return ""
-	}
-	switch v := as.Rhs[0].(type) {
-	case *ast.Ident:
-		if v.Name == "true" {
+	case *ast.AssignStmt:
+		if len(st.Lhs) != 1 || len(st.Rhs) != 1 {
+			return ""
+		}
+		switch st.Tok {
+		case token.OR_ASSIGN:
+			return "flag-or"
+		case token.ADD_ASSIGN:
+			return "sum"
+		case token.ASSIGN:
+		default:
+			return ""
+		}
+		// the written location must be an element: x[i] or x[i].field
+		var ix *ast.IndexExpr
+		switch l := st.Lhs[0].(type) {
+		case *ast.IndexExpr:
+			ix = l
+		case *ast.SelectorExpr:
+			if inner, ok := l.X.(*ast.IndexExpr); ok {
+				ix = inner
+			}
+		}
+		if ix == nil {
+			return ""
+		}
+		// value independent of the iteration: constant, or an expression without the loop variables
+		usesLoopVar := false
+		ast.Inspect(st.Rhs[0], func(n ast.Node) bool {
+			if id, ok := n.(*ast.Ident); ok && bound[id.Name] {
+				usesLoopVar = true
+			}
+			return true
+		})
+		if _, isCall := st.Rhs[0].(*ast.CallExpr); !usesLoopVar && !isCall {
 			return "set-insert"
 		}
-	case *ast.BasicLit:
-		return "set-insert"
-	}
-	if key, ok := rs.Key.(*ast.Ident); ok && key.Name != "_" {
-		if id, ok := ix.Index.(*ast.Ident); ok && id.Name == key.Name {
-			return "per-key-write"
+		if key, ok := rs.Key.(*ast.Ident); ok && key.Name != "_" {
+			if id, ok := ix.Index.(*ast.Ident); ok && id.Name == key.Name {
+				if _, direct := st.Lhs[0].(*ast.IndexExpr); direct {
+					return "per-key-write"
+				}
+			}
 		}
 	}
 	return ""
@@ -1142,7 +1189,7 @@ func main() {
 	for _, rg := range shaped {
 		regItems = append(regItems, fmt.Sprintf("  ((%s, %s, %s, %d%%nat), %s)", coqStr(rg.s.file), coqStr(rg.s.fn), coqStr(rg.s.expr), rg.s.ord, coqStr(rg.sorter)))
 	}
-	sb.WriteString("\n(* map-range sites whose whole body is one statement:  m[E] = true/const (set-insert),  dst[key] = E (per-key-write),  x |= E (flag-or) *)\n")
+	sb.WriteString("\n(* map-range sites whose whole body is one statement:  m[E] = const or loop-invariant value, possibly under an if (set-insert),  dst[key] = E (per-key-write),  x |= E (flag-or),  x += E (sum) *)\n")
 	fmt.Fprintf(&sb, "Definition shaped_fold_sites : list ((string * string * string * nat) * string) := [\n%s\n].\n", strings.Join(regItems, ";\n"))
 	if err := os.WriteFile(filepath.Join(os.Args[2], "MapSitesGen.v"), []byte(sb.String()), 0o644); err != nil {
 		die("%v", err)
